@@ -8,7 +8,7 @@ EXTRA_VO = ["Exec/RunC20.vo", "Exec/RunC18.vo"]
 
 HEADER18 = c18.HEADER
 HEADER20 = """From Coq Require Import ZArith List String.
-From ACV Require Import Model.Skeleton Model.SkelCreate Exec.RunC20.
+From ACV Require Import Model.Skeleton Model.SkelCreate Model.SkelBlind Exec.RunC20.
 Import ListNotations. Open Scope string_scope."""
 
 TRUSTED_BASE = [
@@ -168,6 +168,26 @@ def coq_create_case(a):
     return "KCre " + C.clist([cred(c) for c in a["creds"]]) + " " + C.clist([stmt(s) for s in a["stmts"]])
 
 
+def coq_blind_case(suite, a):
+    """structural abstract of a blind-issuance call -> Coq term"""
+    L = Interner()
+    nl = lambda xs: "[" + "; ".join(str(L(x)) for x in xs) + "]"
+    sc = a["schema"]
+    if int(sc["nclaims"]) > 1000 or len(sc["labels"]) > 1000:
+        return None
+    bs = f"(Bs {nl(sc['labels'])} {nl(sc['blindable'])} {int(sc['nclaims'])})"
+    if a["k"] == "request_new":
+        if int(a["ngens"]) > 1000:
+            return None
+        return f"KReqNew {bs} {int(a['ngens'])} {nl(a['labels'])}"
+    if a["k"] == "blind_sign":
+        if int(a["nkey"]) > 1000 or int(a["nresp"]) > 1000:
+            return None
+        known = "[" + "; ".join(f"({L(l)}, {C.cbool(ok)})" for l, ok in a["known"]) + "]"
+        return f"KBSign {C.cbool(suite == 'ps')} {bs} {int(a['nkey'])} {int(a['nresp'])} {nl(a['req_labels'])} {known} {C.cbool(a['has_revocation'])}"
+    return f"KUnblind {bs} {nl(a['bundle_labels'])} {nl(a['blind_labels'])} {L(a['revocation_label'])}"
+
+
 def select(tags, rng, sample):
     """every point of the structural tags, one in `sample` of the others"""
     idx = []
@@ -319,6 +339,7 @@ def explore(ctx):
             resB[i] = r
     vterms, vmeta = [], []
     cterms, cmeta = [], []
+    bterms, bmeta = [], []
     for part, op, r in zip(owner, ops, resB):
         if r.get("r") != "ok" or "results" not in r:
             raise C.Infra(f"{part}: unexpected harness answer {json.dumps(r)[:300]}")
@@ -343,6 +364,11 @@ def explore(ctx):
                 if t is not None:
                     vterms.append(t)
                     vmeta.append((part, x, one))
+            if part.startswith("blind") and x.get("abs"):
+                t = coq_blind_case(suite, x["abs"])
+                if t is not None:
+                    bterms.append(t)
+                    bmeta.append((part, x, one))
             if part.startswith("create") and "abs" in x:
                 t = coq_create_case(x["abs"])
                 if t is not None:
@@ -370,6 +396,19 @@ def explore(ctx):
             failures.append({"class": None, "witness": False,
                              "text": f"correspondence broken: {x['desc']}: Presentation::create succeeds on a structure the skeleton rejects when every builder's own test passes",
                              "case": {"part": part, "mutation": x["desc"], "abs": x["abs"], "op": one}})
+    # the blind-issuance skeletons
+    modelD = C.run_model("C20", HEADER20, bterms, shard_size=250, tag="skelb") if bterms else []
+    for (part, x, one), m in zip(bmeta, modelD):
+        mv = m.strip().split(" ")[0]
+        bump("B:blind %s verdicts impl=%s model=%s" % (x["abs"]["k"], x["out"], mv))
+        if "panic" in m:
+            failures.append({"class": None, "witness": False, "text": "a blind-issuance skeleton evaluates to Panic (contradicts the C20 blind theorems)", "case": {"op": one}})
+        if mv == "err" and x["out"] == "ok":
+            failures.append({"class": None, "witness": False,
+                             "text": f"correspondence broken: {x['desc']}: the blind-issuance entry point succeeds on a structure the skeleton rejects when every cryptographic test passes",
+                             "case": {"part": part, "mutation": x["desc"], "abs": x["abs"], "op": one}})
+    for (part, x, one), m in list(zip(bmeta, modelD))[:: max(1, len(bmeta) // 3)]:
+        samples.append({"part": part, "mutation": x["desc"], "impl": x["out"], "blind_skeleton_all_tests_pass": m.strip()})
     for (part, x, one), m in list(zip(cmeta, modelC))[:: max(1, len(cmeta) // 3)]:
         samples.append({"part": part, "mutation": x["desc"], "impl": x["out"], "create_skeleton_all_tests_pass": m.strip()})
     for (part, x, one), m in list(zip(vmeta, modelB))[:: max(1, len(vmeta) // 4)]:
